@@ -26,11 +26,42 @@ ASSUMPTIONS = [
 
 
 def vkey(var):
-    return ''.join('%s%s' % (k, var[k]) for k in sorted(var))
+    return ''.join('%s%s' % (k, L._vstr(var[k])) for k in sorted(var))
 
 
 def okey(op, ty, cfg, var):
     return '%s|%s|%s|%s' % (op, ty, cfg, vkey(var))
+
+
+def fam(key):
+    return key.rsplit('|', 1)[0]
+
+
+class Floor(object):
+    """frozen decided set.  An entry is either a full obligation key -> class, or a family key
+    'op|ty|cfg' -> 'ALL:<class>' meaning every instantiation of that family was decided when frozen
+    (instantiation sweeps whose members depend on VERIF_SEED are frozen this way)."""
+
+    def __init__(self, d):
+        self.d = d
+
+    def __contains__(self, key):
+        return key in self.d or fam(key) in self.d
+
+    def get(self, key):
+        if key in self.d:
+            return self.d[key]
+        v = self.d.get(fam(key))
+        return v.split(':')[1] if v else None
+
+    def __bool__(self):
+        return bool(self.d)
+
+    def __len__(self):
+        return len(self.d)
+
+    def keys(self):
+        return self.d.keys()
 
 
 def obligations(pid, tier, only=None, cfgs=None):
@@ -45,7 +76,7 @@ def obligations(pid, tier, only=None, cfgs=None):
             if only and o.name not in only:
                 continue
             for t in o.types:
-                for v in L.variants_of(o, t):
+                for v in L.variants_of(o, t, c, tier):
                     l.append((o.name, t.name, v))
         obls[c.name] = l
     return obls
@@ -59,7 +90,7 @@ def run(pid, level, a, note):
     cfgs = a.cfg.split(',') if a.cfg else None
     obls = obligations(pid, a.tier, only, cfgs)
     res = L.run_obligations(obls)
-    floor = report.load_decided().get(pid, {})
+    floor = Floor(report.load_decided().get(pid, {}))
     stats = collections.Counter()
     undecided = []
     kernels = set()
@@ -87,7 +118,7 @@ def run(pid, level, a, note):
             continue
         # mismatch / undecided
         if key in floor:
-            what = 'kernel no longer matches %s' % ('its spec form' if floor[key] == 'P' else 'its reviewed algorithm')
+            what = 'kernel no longer matches %s' % ('its spec form' if floor.get(key) == 'P' else 'its reviewed algorithm')
             if st == 'mismatch':
                 what += ' at lane %s: first difference at %s: got %s, expected %s; source %s' % (
                     x.get('lane'), x.get('diff_path') or '(root)', x.get('diff_got'), x.get('diff_want'), ' <- '.join((x.get('chain') or [])[:4]))
@@ -112,7 +143,8 @@ def run(pid, level, a, note):
                 undecided.append({'obligation': key, 'why': x.get('why') or ('no spec form / template matches: ' + (x.get('got') or '')[:160])})
     # coverage floor: every frozen obligation must have been produced again
     if not only and not cfgs:
-        missing = [k for k in floor if k not in seen_keys]
+        seen_fams = set(fam(k) for k in seen_keys)
+        missing = [k for k in floor.keys() if k not in seen_keys and k not in seen_fams]
         if missing:
             r.broke('%d obligations of the frozen decided set were not generated (e.g. %s): catalogue or configuration table shrank' % (len(missing), missing[:3]))
     if os.environ.get('VERIF_DUMP_FP'):
@@ -123,12 +155,26 @@ def run(pid, level, a, note):
         json.dump(dict((k, sorted(v)) for k, v in fp.items()), open(os.environ['VERIF_DUMP_FP'], 'w'), indent=0, sort_keys=True)
     if a.freeze:
         d = report.load_decided()
-        d[pid] = decided_now
+        # compress: families whose every generated instantiation was decided are stored once
+        byfam = collections.defaultdict(list)
+        for k in seen_keys:
+            byfam[fam(k)].append(k)
+        comp = {}
+        for f, ks in byfam.items():
+            cls = set(decided_now.get(k) for k in ks)
+            if None not in cls and len(ks) > 1:
+                comp[f] = 'ALL:' + ('I' if 'I' in cls else 'P')
+            else:
+                for k in ks:
+                    if k in decided_now:
+                        comp[k] = decided_now[k]
+        d[pid] = comp
         with open(DECIDED, 'w') as f:
             json.dump(d, f, indent=0, sort_keys=True)
         print('froze %d decided obligations for %s' % (len(decided_now), pid))
-    n_obl = len(floor) if floor else len(decided_now)
-    n_dis = sum(1 for k in floor if k in decided_now) if floor else len(decided_now)
+    claimed = [k for k in seen_keys if k in floor] if floor else list(decided_now)
+    n_obl = len(claimed)
+    n_dis = sum(1 for k in claimed if k in decided_now)
     cov = {
         'obligations': n_obl, 'discharged': n_dis,
         'class_P': stats['P'], 'class_I': stats['I'],
@@ -188,4 +234,8 @@ def c09(a):
     return run('C09', 'proof', a, 'one obligation per (reduction, element type, configuration): the scalar result (or haddp lane) flattened over its associative-commutative operator must be exactly the multiset of all lanes, each once (add, generic reduce) / every lane at least once (min, max)')
 
 
-REGISTRY = {'C01': c01, 'C02': c02, 'C03': c03, 'C07': c07, 'C08': c08, 'C09': c09}
+def c05(a):
+    return run('C05', 'exploration', a, 'exploration over instantiations (constant index patterns from structured families + VERIF_SEED random ones, every slide/rotate/insert/extract_pair count, every compress/expand mask up to 8 lanes); each instantiation is decided exactly for all lane values by byte provenance: every output lane must be the input lane (or zero) the definition names')
+
+
+REGISTRY = {'C05': c05, 'C01': c01, 'C02': c02, 'C03': c03, 'C07': c07, 'C08': c08, 'C09': c09}
